@@ -128,7 +128,7 @@ func checkFlow(p flowParams, x *verifkit.Exec) []verifkit.Violation {
 					for i := 0; i <= q; i++ {
 						if ok, missing := handled(recKey{s, i}); !ok {
 							a.bad("C02/position-covers-unhandled", "commit #%d stores position %d for %s although record %d has not been confirmed by %s (nor dead-lettered/filtered): a crash now loses it (event #%d)", e.Idx, q, s, i, missing, e.Seq)
-							if k := (recKey{s, i}); nackedInEpoch[k] || dlqNacked[k] {
+							if k := (recKey{s, i}); nackedInEpoch[k] || dlqNacked[k] || procRejected[k] {
 								a.bad("C07/rejected-record-covered-by-position", "commit #%d (event #%d) stores position %d for %s: it covers record %d, which was rejected and has no confirmed DLQ write - the record is lost", e.Idx, e.Seq, q, s, i)
 							}
 							// the engine acknowledged position q to the source connector object (that is what gets persisted) while record i
